@@ -349,8 +349,12 @@ class Deployed:
         if ctor_call is not None:
             init += enc_tuple(ctor_call.args, [t for _, t in prog.ctor.params])
         self.deploy_out = b""        # revert data of a failed deployment
+        self.deploy_logs = []        # events emitted by the constructor
         try:
             self.addr = self.chain.evm.deploy(ctor_call.sender if ctor_call is not None else DEPLOYER, init, 0, None)
+            for l in self.chain.evm.result.logs:
+                lt = log_tuple(l)
+                self.deploy_logs.append((lt[1], lt[2]))
         except RuntimeError as e:
             self.addr = None
             import re
@@ -363,7 +367,7 @@ class Deployed:
 
     def call(self, call):
         if getattr(call, "deploy", False):
-            return (self.addr is not None, self.deploy_out, [])
+            return (self.addr is not None, self.deploy_out, list(self.deploy_logs))
         if self.addr is None:
             return (False, b"", [])
         fun = self.prog.exts[call.fidx]
@@ -383,6 +387,9 @@ class Deployed:
         for name, t in self.prog.sto:
             if name == "$hstored":     # the scripted callee's state word
                 out[name] = [self.chain.storage(self.helper, self.helper_slot)] if self.helper else None
+                continue
+            if name == "$balance":     # the contract's ether balance (a reserved cell of the reference program's state)
+                out[name] = [self.chain.evm.get_balance(self.addr)] if self.addr is not None else None
                 continue
             if name in self.prog.imm or self.addr is None:
                 out[name] = None          # immutables live in the code, not in storage
